@@ -151,7 +151,45 @@ macro_rules! elem_word {
         }
     )*};
 }
-elem_word!(u8, u16, u32, u64, usize);
+elem_word!(u8, u16, u32, u64, usize, u128);
+/// two's-complement integers travel as their bit pattern (Wire.v: e_bits)
+macro_rules! elem_signed {
+    ($($t:ty => $u:ty),*) => {$(
+        impl Elem for $t {
+            fn of_u(u: &U) -> Option<Self> {
+                match u { U::N(n) => <$u>::try_from(*n).ok().map(|x| x as $t), _ => None }
+            }
+            fn to_u(&self) -> U { U::N(*self as $u as u128) }
+        }
+    )*};
+}
+elem_signed!(i8 => u8, i16 => u16, i32 => u32, i64 => u64, i128 => u128, isize => usize);
+impl Elem for std::num::Wrapping<i32> {
+    fn of_u(u: &U) -> Option<Self> {
+        i32::of_u(u).map(std::num::Wrapping)
+    }
+    fn to_u(&self) -> U {
+        self.0.to_u()
+    }
+}
+impl Elem for bool {
+    fn of_u(u: &U) -> Option<Self> {
+        match u { U::N(0) => Some(false), U::N(1) => Some(true), _ => None }
+    }
+    fn to_u(&self) -> U { U::N(*self as u128) }
+}
+impl Elem for char {
+    fn of_u(u: &U) -> Option<Self> {
+        match u { U::N(n) => u32::try_from(*n).ok().and_then(char::from_u32), _ => None }
+    }
+    fn to_u(&self) -> U { U::N(*self as u128) }
+}
+impl Elem for f32 {
+    fn of_u(u: &U) -> Option<Self> {
+        match u { U::N(n) => u32::try_from(*n).ok().map(f32::from_bits), _ => None }
+    }
+    fn to_u(&self) -> U { U::N(self.to_bits() as u128) }
+}
 impl Elem for () {
     fn of_u(u: &U) -> Option<Self> {
         match u {
